@@ -12,7 +12,7 @@ from sa.report import Ctx
 
 from .common import generic_sweeps
 
-from .cp_common import default_raises, dispatcher_tags, flattener_tags, produced_tags, shape_dispatch_falls_through, structural_len_subjects
+from .cp_common import check_alldiff_coverage, default_raises, dispatcher_tags, flattener_tags, produced_tags, shape_dispatch_falls_through, structural_len_subjects
 
 EXPLANATION = (
     "Decides structural necessary conditions of 'no returned assignment breaks an added constraint / INFEASIBLE only "
@@ -124,6 +124,8 @@ def run(ctx: Ctx):
 
     # O7 domains only narrowed by propagators
     check_narrowing(ctx)
+    check_exact_division(ctx)
+    check_alldiff_coverage(ctx, "C05-O9")
     generic_sweeps(ctx, skip_stutter_modules=("solvor/sat.py",))
 
 
@@ -159,6 +161,29 @@ def check_hints(ctx: Ctx, f, sink: str):
                 guarded = any("INFEASIBLE" in a for a in rat) and any("n_given" in a or "hints" in a for a in rat) and rnode.id in cfg.backward(s.node) and "n_given" in ast.unparse(retry[-1])
         ctx.ob("C05-O5", "R1 STATUS-GUARD", f, f"INFEASIBLE#{k} cannot be caused by hints (guarded by 'no hints in force' or preceded by a hint-free retry)", guarded, f"hints flow into `{sink}`; guards {sorted(at)[:5]}", node=s.call)
     ctx.floor(f"INFEASIBLE sites after hints in {f.qualname}", n_inf, 1)
+
+
+def check_exact_division(ctx: Ctx):
+    """R32 EXACT-DIVISION: a floor division whose result names a domain value to remove or keep is the solution of
+    `k * v + c == 0` only when k divides c; the use must be dominated by a divisibility test on the same operands."""
+    m = ctx.repo.module("cp")
+    n_sites = 0
+    for q in sorted(m.funcs):
+        if not q.startswith("Model._propagate"):
+            continue
+        f = m.funcs[q]
+        cfg = cfg_of(f.node)
+        gv = GuardView(cfg)
+        for n in own_nodes(f.node):
+            if isinstance(n, ast.BinOp) and isinstance(n.op, ast.FloorDiv):
+                n_sites += 1
+                sn = cfg.stmt_node_containing(n)
+                at = gv.guard_atoms(sn, stable_only=False)
+                num = n.left.operand if isinstance(n.left, ast.UnaryOp) else n.left
+                want = {f"0 == {ast.unparse(num)} % {ast.unparse(n.right)}", f"{ast.unparse(num)} % {ast.unparse(n.right)} == 0"}
+                ok = bool(want & at)
+                ctx.ob("C05-O8", "R32 EXACT-DIVISION", f, f"`{ast.unparse(n)}` is used as an exact quotient only under a divisibility test", ok, f"guards {sorted(a for a in at if '%' in a)}: without it the floor of a non-integral solution is removed from the domain although it is a legal value", node=n)
+    ctx.count("floor divisions in propagators", n_sites)
 
 
 def check_narrowing(ctx: Ctx):
@@ -289,7 +314,20 @@ def _t_rename(tree):
     M.rename_local(g, "free", "open_vars")
 
 
+def _v_no_divisibility(tree):
+    g = M.find_func(tree, "Model._propagate_ne_expr")
+    M.replace_stmt(g, lambda s: isinstance(s, ast.If) and M.src_is(s.test, "const % k == 0"), lambda s: s.body)
+
+
+def _v_alldiff_min_ub(tree):
+    g = M.find_func(tree, "SATEncoder._encode_all_different")
+    g.body = M.stmts("lo = min((v.lb for v in variables))\nhi = min((v.ub for v in variables))\nfor val in range(lo, hi + 1):\n    lits = []\n    for var in variables:\n        if val in var.bool_vars:\n            lits.append(var.bool_vars[val])\n    if len(lits) > 1:\n        self._encode_at_most_one(lits)")
+
+
 VARIANTS = [
+    M.Variant("linear != removes the floored quotient without divisibility test (seed C05-A)", CP, _v_no_divisibility, "C05-O8"),
+    M.Variant("all_different enumerates values up to the smallest upper bound (seed C05-B)", ENC, _v_alldiff_min_ub, "C05-O9"),
+
     M.Variant("DFS flattener ignores 'sub' and no longer rejects unknown tags (original defect)", CP, _v_drop_sub_tag, "C05-O2"),
     M.Variant("twin: new operator whose tag the flattener rejects loudly", CP, _v_new_tag_unhandled, None, "raises at run time instead of weakening: flattener rejects unknown tags, so the tag rule is discharged; listed to document that a loud failure is accepted"),
     M.Variant("new constraint constructor without dispatcher arms", CP, _v_new_constraint_unhandled, "C05-O1"),
